@@ -21,6 +21,7 @@ mod c10;
 mod c11;
 mod c12;
 mod c13;
+mod c14;
 mod c15;
 mod c19;
 mod c18;
@@ -52,6 +53,7 @@ fn exec_line(line: &str) -> String {
             "C11" => c11::exec(&op, &a),
             "C12" => c12::exec(&op, &a),
             "C13" => c13::exec(&op, &a),
+            "C14" => c14::exec(&op, &a),
             "C15" => c15::exec(&op, &a),
             "C19" => c19::exec(&op, &a),
             "C18" => c18::exec(&op, &a),
@@ -110,6 +112,7 @@ fn main() {
                 "C11" => c11::generate(&mut rng, tier, shard, nshards, &mut emit),
                 "C12" => c12::generate(&mut rng, tier, shard, nshards, &mut emit),
                 "C13" => c13::generate(&mut rng, tier, shard, nshards, &mut emit),
+                "C14" => c14::generate(&mut rng, tier, shard, nshards, &mut emit),
                 "C15" => c15::generate(&mut rng, tier, shard, nshards, &mut emit),
                 "C19" => c19::generate(&mut rng, tier, shard, nshards, &mut emit),
                 "C18" => c18::generate(&mut rng, tier, shard, nshards, &mut emit),
